@@ -11,7 +11,8 @@ if ! git apply --check "$PATCH" 2>/dev/null; then
 else
   git apply "$PATCH"
 fi
-cd /verif && VERIF_ROOT="${VERIF_ROOT:-/verif}" ./check.sh "$ID" "$TIER" 2>&1 | grep -E "VIOLATION|violation class|HARNESS|KNOWN|batch" | cut -c1-400
+MR="${VERIF_ROOT:-/tmp/mutant_root}"; mkdir -p "$MR"; cp /verif/KNOWN_FINDINGS.txt "$MR/"
+cd /verif && VERIF_ROOT="$MR" ./check.sh "$ID" "$TIER" 2>&1 | grep -E "VIOLATION|violation class|HARNESS|KNOWN|batch" | cut -c1-400
 RC=${PIPESTATUS[0]}
 cd /repo && git reset -q --hard HEAD
 echo "exit=$RC"
